@@ -24,6 +24,7 @@
 -/
 import BioCantor.Model.Location
 import BioCantor.Model.RelativeTo
+import BioCantor.Model.Lift
 namespace BioCantor.Model
 open BioCantor
 
@@ -226,4 +227,115 @@ def chromosomeSpan (t : Transcript) : R Location := do
 def chromosomeLocation (t : Transcript) : R Location := pure (.compound t.exons)
 
 end Transcript
+/-! ## transcripts built on a sequence chunk (`io.parser.seq_chunk_to_parent`)
+
+  `parent_or_seq_chunk_parent` is a chunk parent: a sequence of length `w.2 - w.1` placed at the window `w`
+  of the chromosome on strand `wst`.  What changes (gene/interval.py `initialize_location` →
+  `liftover_location_to_seq_chunk_parent`):
+    * `_location` (= `chunk_relative_location`) is `Model.chunkDown` of the chromosome location: the part inside
+      the window in chunk coordinates, block structure kept, `EmptyLocation` when nothing is inside;
+    * `chromosome_location` is still `CompoundInterval(_genomic_starts, _genomic_ends, strand)`, now below a
+      chromosome parent WITHOUT sequence (no length check on chromosome intervals);
+    * the CDS object is built on the same parent, so it has its own chunk-relative `_location`.
+  Every chromosome-level method reads only `base`; the `chunk_relative_*` / `*_to_chunk_relative` methods read
+  the two `_location`s. -/
+structure ChunkTranscript where
+  /-- chromosome-level members (`plen = none`: the chromosome parent of a chunk carries no sequence) -/
+  base : Transcript
+  w : Blk
+  wst : Strand
+  /-- `_location` of the transcript -/
+  location : Location
+  /-- `cds._location` (`none` = non-coding) -/
+  cdsLocation : Option Location
+  deriving Repr, Inhabited
+
+/-- `initialize_location(starts, ends, strand, chunk_parent)` -/
+def initializeLocationOnChunk (bs : List Blk) (st : Strand) (w : Blk) (wst : Strand) : R Location := do
+  let l ← initializeLocation bs st
+  chunkDown l w wst
+
+/-- `TranscriptInterval.__init__` with a chunk parent -/
+def mkChunkTranscript (exons : List Blk) (st : Strand) (cds : Option (List Blk)) (w : Blk) (wst : Strand) :
+    R ChunkTranscript := do
+  let loc ← initializeLocationOnChunk exons st w wst
+  let e ← chromosomeLocation exons st
+  match cds with
+  | none => pure ⟨⟨e, none, none⟩, w, wst, loc, none⟩
+  | some cb =>
+    match cb.head?, exons.head?, cb.getLast?, exons.getLast? with
+    | some c0, some e0, some cl, some el =>
+      if c0.1 < e0.1 then throw .InvalidCDSInterval
+      else if cl.2 > el.2 then throw .InvalidCDSInterval
+      else do
+        let dl ← initializeLocationOnChunk cb st w wst
+        let d ← chromosomeLocation cb st
+        if d.len = 0 then throw .InvalidCDSInterval
+        pure ⟨⟨e, some d, none⟩, w, wst, loc, some dl⟩
+    | _, _, _, _ => throw .Location
+
+namespace ChunkTranscript
+
+/-- `SingleInterval(s, e, strand, parent=loc.parent)` for a chunk-relative location `loc`: the parent is the chunk
+    (sequence of length `w.2 - w.1`), or `None` for an EmptyLocation -/
+def chunkInterval (c : ChunkTranscript) (loc : Location) (s e : Int) (st : Strand) : R Location :=
+  mkSingleOn (if loc == .empty then none else some c.w.len) s e st
+
+/-- `loc.parent_to_relative_location(i)`: `_EmptyLocation` overrides it and raises -/
+def relativeToChunkLocation (i : Location) (loc : Location) : R Location :=
+  match loc with
+  | .empty => throw .EmptyLocation
+  | l => locationRelativeTo i l true
+
+/-- `chunk_relative_pos_to_feature` / `chunk_relative_pos_to_transcript` -/
+def chunkRelativePosToTranscript (c : ChunkTranscript) (q : Int) : R Int := p2r c.location q
+/-- `feature_pos_to_chunk_relative` / `transcript_pos_to_chunk_relative` -/
+def transcriptPosToChunkRelative (c : ChunkTranscript) (r : Int) : R Int := r2p c.location r
+/-- `chunk_relative_interval_to_feature` / `…_to_transcript` -/
+def chunkRelativeIntervalToTranscript (c : ChunkTranscript) (s e : Int) (st : Strand) : R Location := do
+  let i ← c.chunkInterval c.location s e st
+  relativeToChunkLocation i c.location
+/-- `feature_interval_to_chunk_relative` / `transcript_interval_to_chunk_relative` -/
+def transcriptIntervalToChunkRelative (c : ChunkTranscript) (rs re : Int) (rst : Strand) : R Location :=
+  relInterval c.location rs re rst
+
+def requireCodingLocation (c : ChunkTranscript) : R Location :=
+  match c.cdsLocation with
+  | some l => pure l
+  | none => throw .NoncodingTranscript
+
+/-- `chunk_relative_pos_to_cds` -/
+def chunkRelativePosToCds (c : ChunkTranscript) (q : Int) : R Int := do
+  let l ← c.requireCodingLocation; p2r l q
+/-- `cds_pos_to_chunk_relative` -/
+def cdsPosToChunkRelative (c : ChunkTranscript) (r : Int) : R Int := do
+  let l ← c.requireCodingLocation; r2p l r
+/-- `chunk_relative_interval_to_cds` -/
+def chunkRelativeIntervalToCds (c : ChunkTranscript) (s e : Int) (st : Strand) : R Location := do
+  let l ← c.requireCodingLocation
+  let i ← c.chunkInterval l s e st
+  relativeToChunkLocation i l
+/-- `cds_interval_to_chunk_relative` -/
+def cdsIntervalToChunkRelative (c : ChunkTranscript) (rs re : Int) (rst : Strand) : R Location := do
+  let l ← c.requireCodingLocation; relInterval l rs re rst
+
+/-- `get_5p_interval` of a chunk-built transcript: the transcript index of the CDS start (an index into the
+    WHOLE transcript) is applied to the chunk-relative location (the part inside the chunk) -/
+def get5pInterval (c : ChunkTranscript) : R Location := do
+  let dl ← c.requireCodingLocation
+  if dl = c.location then pure .empty
+  else do
+    let cdsStartOnTranscript ← c.base.cdsPosToTranscript 0
+    relInterval c.location 0 cdsStartOnTranscript .plus
+
+/-- `get_3p_interval`: `len(self.cds.chunk_relative_location)` is the length of the in-chunk part of the CDS,
+    `len(self._location)` the length of the in-chunk part of the transcript -/
+def get3pInterval (c : ChunkTranscript) : R Location := do
+  let dl ← c.requireCodingLocation
+  if dl = c.location then pure .empty
+  else do
+    let cdsInclusiveEnd ← c.base.cdsPosToTranscript ((locLen dl : Int) - 1)
+    relInterval c.location (cdsInclusiveEnd + 1) (locLen c.location) .plus
+
+end ChunkTranscript
 end BioCantor.Model
